@@ -115,8 +115,10 @@ class C17:
             e2 = subst(e)
             if isinstance(e2, ast.Compare) and len(e2.ops) == 1 and pat.match("%s.priority" % var, e2.left) is not None:
                 c = e2.comparators[0]
-                if isinstance(e2.ops[0], ast.Lt) and isinstance(c, ast.Constant) and c.value == 0:
-                    return "PRIO<0"
+                if isinstance(c, ast.Constant) and isinstance(c.value, (int, float)):
+                    op = {ast.Lt: "<", ast.LtE: "<=", ast.Gt: ">", ast.GtE: ">=", ast.Eq: "==", ast.NotEq: "!="}.get(type(e2.ops[0]))
+                    if op:
+                        return "PRIO%s%s" % (op, c.value)
                 raise linear.Undecided("priority test `%s`" % ast.unparse(e))
             s = sym(e2)
             if s in ("C0", "C1"):
